@@ -1272,6 +1272,199 @@ example : (Ecs.step ⟨0, false⟩ (Ecs.runUp ⟨0, false⟩ exUp Store.empty [.
 #print axioms ecs_hit_equals_fresh_located
 #print axioms ecs_locationless_counterexample
 
+/-! ## Round 4: the AA flag, faults of the next handler, production wiring -/
+
+/-- An upstream that marks its (constant) answer authoritative. -/
+def upAA : Key → Msg := fun _ => { exMsg with aa := true }
+
+/-- **simple_aa_counterexample** (known finding `simple:hit-clears-aa`).  "Same flags" fails for AA
+on the simple cache: the first client gets the upstream's AA = 1, the second, served from cache,
+AA = 0.  (`simple_hit_equals_fresh` covers rcode, TC, AD, RA, RD, CD and the records.) -/
+theorem simple_aa_counterexample :
+    ¬ ∀ (cfg : Cfg) (up : Key → Msg) (evs : List (Nat × Req ⊕ Key)) (now : Nat) (q : Req),
+      (Simple.step cfg (Simple.runUp cfg up Store.empty evs) now q (Simple.answerFor up q)).resp.aa =
+      (Simple.step cfg Store.empty now q (Simple.answerFor up q)).resp.aa := by
+  intro h
+  exact absurd (h ⟨0, false⟩ upAA [.inl (0, exReq)] 5 exReq) (by decide +kernel)
+
+/-- What the simple cache serves never has AA, whatever was stored. -/
+theorem simple_hit_aa_false (cfg : Cfg) (s : Store) (now : Nat) (q : Req) (a : Msg)
+    (h : (Simple.step cfg s now q a).hit = true) : (Simple.step cfg s now q a).resp.aa = false := by
+  unfold Simple.step Simple.stepWith at h ⊢
+  split
+  · rfl
+  · rename_i hn
+    rw [hn] at h
+    dsimp only at h
+    split at h <;> simp at h
+
+/-- **ecs_hit_keeps_aa.**  Under the hypotheses of `ecs_hit_equals_fresh` the ECS cache also
+preserves the AA flag: served from cache or not, the response has the AA flag an empty cache gives. -/
+theorem ecs_hit_keeps_aa (cfg : Cfg) (up : Ecs.Up) (hs : ScopeHonest up) (hd : DOOnlyAdds up)
+    (evs : List (Nat × Req ⊕ Key)) (now : Nat) (q : Req) :
+    (Ecs.step cfg (Ecs.runUp cfg up Store.empty evs) now q (Ecs.answerFor up q) (Ecs.depFor up q)).resp.aa =
+    (Ecs.step cfg Store.empty now q (Ecs.answerFor up q) (Ecs.depFor up q)).resp.aa := by
+  have hinv := Ecs.invUp_run cfg up Store.empty evs (by intro k e h; cases h)
+  generalize Ecs.runUp cfg up Store.empty evs = s at *
+  have hfresh : (Ecs.step cfg Store.empty now q (Ecs.answerFor up q) (Ecs.depFor up q)).resp =
+      Ecs.setAD (prepStore cfg q.qtype (echo q (Ecs.core up q))).1 q := by
+    unfold Ecs.step Ecs.lookup
+    simp only [Store.live, Store.empty]
+    split
+    · rename_i h; split at h <;> cases h
+    · split <;> rfl
+  rw [hfresh]
+  have key : ∀ k e, (k = Ecs.keyNo q ∨ (k = Ecs.keyDep q ∧ q.declined = false)) → s.live now k = some e →
+      (Ecs.hit e.msg (now - e.at_) q).aa = (Ecs.setAD (prepStore cfg q.qtype (echo q (Ecs.core up q))).1 q).aa := by
+    intro k e hk hl
+    obtain ⟨hsk, _⟩ := live_some s now k e hl
+    obtain ⟨q0, hkey, hmsg, _⟩ := hinv k e hsk
+    have hm := Ecs.matches_of_key q0 q _ k hk hkey
+    have hcore := Ecs.core_eq_of_matches up hs hd q0 q hm
+    rw [hmsg, hcore, hm.2.1]
+    obtain ⟨ans0, hs0, _⟩ := prepStore_echo_fields cfg q.qtype q0 (Ecs.core up q)
+    obtain ⟨ans1, hs1, _⟩ := prepStore_echo_fields cfg q.qtype q (Ecs.core up q)
+    rw [hs0, hs1]
+    rfl
+  unfold Ecs.step
+  split
+  · rename_i e hl
+    unfold Ecs.lookup at hl
+    split at hl
+    · rename_i e' hl'
+      cases hl
+      exact key _ e (Or.inl rfl) hl'
+    · split at hl
+      · cases hl
+      · rename_i hdd
+        have hd' : q.declined = false := by cases hq : q.declined <;> simp_all
+        exact key _ e (Or.inr ⟨rfl, hd'⟩) hl
+  · split <;> rfl
+
+/-- A history in which some requests meet a failing next handler (error with or without a written
+message, no message, unreadable ECS data). -/
+inductive EvF
+  | ok (e : Ev)
+  | fault (now : Nat) (q : Req)
+
+/-- The history without the requests that met a fault. -/
+def EvF.strip : List EvF → List Ev
+  | [] => []
+  | .ok e :: evs => e :: EvF.strip evs
+  | .fault _ _ :: evs => EvF.strip evs
+
+def Simple.runF (cfg : Cfg) : Store → List EvF → Store
+  | s, [] => s
+  | s, .ok (.query now q a _) :: evs => Simple.runF cfg (Simple.step cfg s now q a).store evs
+  | s, .ok (.evict k) :: evs => Simple.runF cfg (s.del k) evs
+  | s, .fault now q :: evs => Simple.runF cfg (Simple.stepFault simpleTTL s now q).1 evs
+
+def Ecs.runF (cfg : Cfg) : Store → List EvF → Store
+  | s, [] => s
+  | s, .ok (.query now q a dep) :: evs => Ecs.runF cfg (Ecs.step cfg s now q a dep).store evs
+  | s, .ok (.evict k) :: evs => Ecs.runF cfg (s.del k) evs
+  | s, .fault now q :: evs => Ecs.runF cfg (Ecs.stepFault s now q).1 evs
+
+theorem simple_fault_no_trace (f : Nat → Nat → Nat) (s : Store) (now : Nat) (q : Req) :
+    (Simple.stepFault f s now q).1 = s := by
+  unfold Simple.stepFault; split <;> rfl
+
+theorem ecs_fault_no_trace (s : Store) (now : Nat) (q : Req) : (Ecs.stepFault s now q).1 = s := by
+  unfold Ecs.stepFault; split <;> rfl
+
+/-- While the next handler fails, a request is answered iff a normal request would have been
+served from the cache, and then with exactly that answer; otherwise nothing is written. -/
+theorem simple_fault_answer (cfg : Cfg) (s : Store) (now : Nat) (q : Req) (a : Msg) :
+    (Simple.stepFault simpleTTL s now q).2 =
+      if (Simple.step cfg s now q a).hit then some (Simple.step cfg s now q a).resp else none := by
+  unfold Simple.stepFault Simple.step Simple.stepWith
+  split
+  · rfl
+  · split <;> rfl
+
+theorem ecs_fault_answer (cfg : Cfg) (s : Store) (now : Nat) (q : Req) (a : Msg) (dep : Bool) :
+    (Ecs.stepFault s now q).2 =
+      if (Ecs.step cfg s now q a dep).hit then some (Ecs.step cfg s now q a dep).resp else none := by
+  unfold Ecs.stepFault Ecs.step
+  split
+  · rfl
+  · split <;> rfl
+
+/-- **simple_faults_transparent / ecs_faults_transparent.**  Requests that met a failing next
+handler leave no trace: the store after any history is the store after the history without them, so
+every history theorem above (provenance, expiry, cacheability, TTL bound, cached == fresh) holds
+verbatim for histories with faults, with the faulted requests excluded from the possible fillers. -/
+theorem simple_faults_transparent (cfg : Cfg) (s : Store) (evs : List EvF) :
+    Simple.runF cfg s evs = Simple.run cfg s (EvF.strip evs) := by
+  induction evs generalizing s with
+  | nil => rfl
+  | cons ev evs ih =>
+    cases ev with
+    | ok e => cases e <;> exact ih _
+    | fault now q =>
+      show Simple.runF cfg (Simple.stepFault simpleTTL s now q).1 evs = _
+      rw [simple_fault_no_trace]; exact ih s
+
+theorem ecs_faults_transparent (cfg : Cfg) (s : Store) (evs : List EvF) :
+    Ecs.runF cfg s evs = Ecs.run cfg s (EvF.strip evs) := by
+  induction evs generalizing s with
+  | nil => rfl
+  | cons ev evs ih =>
+    cases ev with
+    | ok e => cases e <;> exact ih _
+    | fault now q =>
+      show Ecs.runF cfg (Ecs.stepFault s now q).1 evs = _
+      rw [ecs_fault_no_trace]; exact ih s
+
+/-- Corollary: after a history with faults, whatever is served from cache was stored by a request
+of the history that did NOT meet a fault (simple cache; the same rewriting works for every history
+theorem). -/
+theorem simple_hit_provenance_with_faults (cfg : Cfg) (evs : List EvF) (now : Nat) (q : Req) (a : Msg)
+    (hhit : (Simple.step cfg (Simple.runF cfg Store.empty evs) now q a).hit = true) :
+    (Simple.step cfg (Simple.run cfg Store.empty (EvF.strip evs)) now q a).hit = true ∧
+    (Simple.step cfg (Simple.runF cfg Store.empty evs) now q a).resp =
+      (Simple.step cfg (Simple.run cfg Store.empty (EvF.strip evs)) now q a).resp := by
+  rw [simple_faults_transparent] at hhit ⊢
+  exact ⟨hhit, rfl⟩
+
+/-- Non-vacuity: a request that faults between two good ones changes nothing; one that faults
+first does not fill the cache. -/
+example : (Simple.step ⟨0, false⟩ (Simple.runF ⟨0, false⟩ Store.empty [.ok (.query 0 exReq exMsg false), .fault 1 exReq]) 5 exReq exMsg).hit = true := by
+  decide +kernel
+example : (Simple.step ⟨0, false⟩ (Simple.runF ⟨0, false⟩ Store.empty [.fault 1 exReq]) 5 exReq exMsg).hit = false := by
+  decide +kernel
+example : (Simple.stepFault simpleTTL exStore 5 exReq).2 ≠ none ∧ (Simple.stepFault simpleTTL Store.empty 5 exReq).2 = none := by
+  decide +kernel
+
+/-- The request information glue: a client that declines ECS gets the zero subnet whatever GeoIP
+says, everybody else the subnet of the country of the ECS option's location if it has one, else of
+the connection's, in the family of the ECS option if there is one, else of the connection. -/
+theorem ecs_glue_declined (geo : Nat → Bool → Nat) (ri : RI) (h : ri.hasECS = true) (hb : ri.ecsBits = 0) :
+    Ecs.declinedOf ri = true ∧ Ecs.subnetOf geo ri = 0 := by
+  unfold Ecs.subnetOf Ecs.declinedOf; simp [h, hb]
+
+theorem ecs_glue_located (geo : Nat → Bool → Nat) (ri : RI) (h : Ecs.declinedOf ri = false) :
+    Ecs.subnetOf geo ri = geo (if ri.hasECS ∧ ri.ecsCtry ≠ 0 then ri.ecsCtry else ri.connCtry)
+      (if ri.hasECS then ri.ecsFam6 else ri.remoteFam6) := by
+  unfold Ecs.subnetOf Ecs.ctryOf Ecs.famOf; simp [h]
+
+example : Ecs.declinedOf ⟨true, 0, false, true, 3, 2⟩ = true ∧ Ecs.ctryOf ⟨true, 24, false, true, 0, 2⟩ = 2 ∧
+    Ecs.ctryOf ⟨true, 24, false, true, 3, 2⟩ = 3 ∧ Ecs.famOf ⟨true, 24, false, true, 3, 2⟩ = false ∧
+    Ecs.famOf ⟨false, 0, false, true, 0, 2⟩ = true := by decide
+
+#print axioms simple_aa_counterexample
+#print axioms simple_hit_aa_false
+#print axioms ecs_hit_keeps_aa
+#print axioms simple_fault_no_trace
+#print axioms ecs_fault_no_trace
+#print axioms simple_fault_answer
+#print axioms ecs_fault_answer
+#print axioms simple_faults_transparent
+#print axioms ecs_faults_transparent
+#print axioms simple_hit_provenance_with_faults
+#print axioms ecs_glue_declined
+#print axioms ecs_glue_located
+
 end Agd.Cache
 #print axioms Agd.Tie.TrC04.translation_complete
 #print axioms Agd.Tie.TrC04.ts_true
@@ -1311,3 +1504,9 @@ end Agd.Cache
 #print axioms Agd.Tie.TrC04.upstream_store_order
 #print axioms Agd.Tie.TrC04.upstream_bad_ecs_not_stored
 #print axioms Agd.Tie.TrC04.upstream_no_panic
+#print axioms Agd.Tie.TrC04.cache_toInternal_tr
+#print axioms Agd.Tie.TrC04.cache_toInternal_panic
+#print axioms Agd.Tie.TrC04.cache_validate_ok
+#print axioms Agd.Tie.TrC04.wiring_model
+#print axioms Agd.Tie.TrC04.locFromReq_no_panic
+#print axioms Agd.Tie.TrC04.locFromReq_country
